@@ -11,6 +11,8 @@ import (
 	"sync/atomic"
 	"time"
 
+	"verif/harness/app"
+
 	"verif/refctl"
 	"verif/vf"
 )
@@ -51,8 +53,10 @@ type history struct {
 	// bookkeeping
 	closedAddrs map[string]bool
 	aborted     string
-	violated    bool
-	estOrder    []string
+	// set while the fence that follows an idle period runs
+	idleJustPassed bool
+	violated       bool
+	estOrder       []string
 }
 
 func (h *history) live() []*mconn {
@@ -91,6 +95,13 @@ func (h *history) abort(why string) {
 // connFailed is called when a request on c failed: if net/http reported a panic of the handler that served
 // the connection, and the fan-out is on its stack, that is a violation; anything else makes the history inconclusive.
 func (h *history) connFailed(c *mconn, what string, err error) {
+	if h.idleJustPassed && httpPanicFor(c.local) == nil {
+		h.r.Violation("idle:connection-dead-after-idle-period", fmt.Sprintf("connection c%d was served before; after a notification and ninety seconds without traffic its next request gets no answer: %v", c.Slot, err),
+			h.witness(map[string]interface{}{"connection": c.Slot, "what": what}))
+		h.violated = true
+		h.abort("connection dead after an idle period")
+		return
+	}
 	if p := httpPanicFor(c.local); p != nil {
 		if sig, in := notifySig(p.Text + "\n" + p.Stack); in {
 			h.r.Violation(sig, notifyPanicWhat, h.witness(map[string]interface{}{"where": fmt.Sprintf("%s on connection c%d: %v", what, c.Slot, err), "stack": trunc(p.Text+"\n"+p.Stack, 2500)}))
@@ -358,7 +369,7 @@ var opKinds = []opKind{
 	{"connect", 3}, {"join", 2}, {"subscribe", 14}, {"unsubscribe", 5}, {"subscribe_no_ev", 2},
 	{"local_set_change", 12}, {"local_set_same", 4}, {"remote_write_change", 12}, {"remote_write_same", 4},
 	{"local_set_clamped", 3}, {"remote_write_clamped", 3}, {"hardware_change", 3}, {"read_refreshing", 4},
-	{"remote_write_readonly", 2}, {"subscribe_with_value_readonly", 3}, {"combined_put", 7}, {"read", 3}, {"close_fin", 3}, {"close_rst", 3},
+	{"remote_write_readonly", 2}, {"subscribe_with_value_readonly", 3}, {"idle", 2}, {"combined_put", 7}, {"read", 3}, {"close_fin", 3}, {"close_rst", 3},
 }
 
 func (h *history) step(maxConns int) {
@@ -638,6 +649,24 @@ func (h *history) step(maxConns int) {
 		} else {
 			h.fenceAll(kind, c, nil, []int{xi})
 		}
+	case "idle":
+		// the application changes a value (notifications go out), then ninety seconds pass without any traffic (every
+		// deadline armed on an accepted connection moves ninety seconds towards the past; net/http clears a
+		// connection's write deadline after each of its own responses, so the idle period has to follow the
+		// notification directly), then every connection must still be served and must have got its event
+		xi := h.pickChar(func(i int, x *chr) bool { return true }, true)
+		x := h.f.chars[xi]
+		v := newValue(x, h.rnd, fmt.Sprintf("I%d.%d", h.n, len(h.log)))
+		h.logf("idle: application sets %s from %s to %s, then 90 s pass without traffic", x.Key, showVal(x.cur), showVal(v))
+		x.set(v)
+		x.cur = v
+		nc, _, armed := app.JumpRW(90 * time.Second)
+		h.logf("  (%d live accepted connections in this process, %d armed write deadlines moved)", nc, armed)
+		h.r.Count("idle_periods", 1)
+		h.r.Count("write_deadlines_found_armed_at_an_idle_period", armed)
+		h.idleJustPassed = true
+		h.fenceAll(kind, nil, []change{{xi, v}}, nil)
+		h.idleJustPassed = false
 	case "subscribe_with_value_readonly":
 		// one entry carrying a value and ev for a characteristic that permits events but no remote write: whatever
 		// happens to the value (C11's business), an entry that is answered with success has (un)subscribed the
